@@ -14,7 +14,10 @@ package main
 import (
 	"fmt"
 	"os"
+	"path/filepath"
+	"runtime"
 	"runtime/debug"
+	"runtime/pprof"
 	"sort"
 	"strings"
 	"syscall"
@@ -41,6 +44,8 @@ type world struct {
 	comp    [][]*compiled // [layout][state]
 	timing  bool
 	t0      time.Time
+	fams    []family
+	child   *job // non-nil in a worker process
 }
 
 func (w *world) lap(what string) {
@@ -48,14 +53,14 @@ func (w *world) lap(what string) {
 		var ru syscall.Rusage
 		syscall.Getrusage(syscall.RUSAGE_SELF, &ru)
 		fmt.Fprintf(os.Stderr, "[c08 %6.1fs wall, %6.1fs user, %6.1fs sys, applies %d] %s\n", time.Since(w.t0).Seconds(),
-			float64(ru.Utime.Nano())/1e9, float64(ru.Stime.Nano())/1e9, cnt.applies, what)
+			float64(ru.Utime.Nano())/1e9, float64(ru.Stime.Nano())/1e9, cnt.Applies, what)
 	}
 }
 
 // family is "all multisets of <=k lines over the given alphabet lines".
 type family struct {
-	lines []int
-	k     int
+	Lines []int
+	K     int
 }
 
 func firstLines(n int) []int {
@@ -67,11 +72,11 @@ func firstLines(n int) []int {
 }
 
 func (f family) String() string {
-	ids := make([]string, len(f.lines))
-	for i, x := range f.lines {
+	ids := make([]string, len(f.Lines))
+	for i, x := range f.Lines {
 		ids[i] = alphabet[x].id
 	}
-	return fmt.Sprintf("<=%d lines over {%s}", f.k, strings.Join(ids, " "))
+	return fmt.Sprintf("<=%d lines over {%s}", f.K, strings.Join(ids, " "))
 }
 
 func buildStates(r *vlib.Run, fams []family) []*state {
@@ -80,10 +85,10 @@ func buildStates(r *vlib.Run, fams []family) []*state {
 	seenSrc := map[string]bool{}
 	merged := 0
 	for _, fam := range fams {
-		for _, pick := range multisets(len(fam.lines), fam.k) {
+		for _, pick := range multisets(len(fam.Lines), fam.K) {
 			src := make([]int, len(pick))
 			for i, x := range pick {
-				src[i] = fam.lines[x]
+				src[i] = fam.Lines[x]
 			}
 			if seenSrc[srcName(src)] {
 				continue
@@ -110,12 +115,28 @@ func buildStates(r *vlib.Run, fams []family) []*state {
 
 func main() {
 	r := vlib.Start("C08")
+	for i, a := range os.Args {
+		if a == "--c08-child" && i+1 < len(os.Args) {
+			dnsfix.Quiet(filepath.Dir(os.Args[i+1]))
+			debug.SetGCPercent(400)
+			childMain(r, os.Args[i+1])
+		}
+	}
 	scratch, clean := vlib.Scratch("c08")
 	defer clean()
 	dnsfix.Quiet(scratch)
 	w := &world{r: r, scratch: scratch, timing: os.Getenv("VERIF_C08_TIMING") != "", t0: time.Now()}
 
-	debug.SetGCPercent(800) // every ApplyDiff allocates ~10 MB of batch slices; collect less often
+	if pf := os.Getenv("VERIF_C08_PPROF"); pf != "" { // development aid only
+		fh, _ := os.Create(pf)
+		pprof.StartCPUProfile(fh)
+		defer pprof.StopCPUProfile()
+	}
+	// every ApplyDiff allocates ~10 MB of batch slices (rdb.DefaultBatchSize): keep the heap mapped instead of
+	// handing it back to the OS and page-faulting it in again for every case
+	ballast := make([]byte, 512<<20) // never touched: raises the heap goal so that freed spans stay mapped and are reused
+	defer runtime.KeepAlive(ballast)
+	debug.SetGCPercent(100) // every ApplyDiff allocates ~10 MB of batch slices; collect less often
 	// quick: <=2 lines over the first 8 alphabet lines; thorough: <=3 over the first 6, <=2 over all 10,
 	// and all three nested subnets together
 	fams := []family{{firstLines(8), 2}}
@@ -127,6 +148,7 @@ func main() {
 		fmt.Sscanf(v, "%d,%d", &n, &k)
 		fams = []family{{firstLines(n), k}}
 	}
+	w.fams = fams
 	w.states = buildStates(r, fams)
 	w.lap(fmt.Sprintf("states: %d", len(w.states)))
 	if len(os.Args) > 2 && os.Args[2] == "dump-states" {
@@ -157,6 +179,7 @@ func main() {
 
 	f.report(w)
 	w.evidence(fams, bfs)
+	pprof.StopCPUProfile()
 	clean()
 	r.Finish()
 }
